@@ -119,7 +119,7 @@ def gen_common(ch, tier, max_n=10):
     mseg = ch.pick("config", "mseg", [3 * k, 4 * k, 8 * k, 64, 100, 128 * 1024])
     return {"k": k, "n": n, "happy": 1, "nservers": nservers,
             "knobs": {"mseg": mseg},
-            "net": {"lat_profile": ch.pick("config", "lat", ["uniform", "uniform", "heavy", "fifo"]),
+            "net": {"threads": ch.pick("config", "threads", ["sync", "sync", "async"]), "lat_profile": ch.pick("config", "lat", ["uniform", "uniform", "heavy", "fifo"]),
                     "jitter": ch.pick("config", "jitter", [0.0005, 0.05, 0.5]), "base_lat": 0.001}}
 
 
